@@ -350,22 +350,29 @@ func (b *ReadWrite) AllKeysChan(ctx context.Context) (<-chan cid.Cid, error) {
 
 	out := make(chan cid.Cid)
 
+	// Take a snapshot of the keys while holding the lock: the index must not be walked
+	// concurrently with Put, which the goroutine below would otherwise do after we return.
+	var keys []cid.Cid
+	if err := b.idx.ForEachCid(func(c cid.Cid, _ uint64) error {
+		if !b.opts.BlockstoreUseWholeCIDs {
+			c = cid.NewCidV1(cid.Raw, c.Hash())
+		}
+		keys = append(keys, c)
+		return nil
+	}); err != nil {
+		return nil, err
+	}
+
 	go func() {
 		defer close(out)
-		err := b.idx.ForEachCid(func(c cid.Cid, _ uint64) error {
+		for _, c := range keys {
 			verifhook.Gate(b, "AllKeysChan", "iter")
-			if !b.opts.BlockstoreUseWholeCIDs {
-				c = cid.NewCidV1(cid.Raw, c.Hash())
-			}
 			select {
 			case out <- c:
 			case <-ctx.Done():
-				return ctx.Err()
+				maybeReportError(ctx, ctx.Err())
+				return
 			}
-			return nil
-		})
-		if err != nil {
-			maybeReportError(ctx, err)
 		}
 	}()
 
